@@ -213,8 +213,13 @@ EvalRule(r) ==
           THEN <<Out(r, "SELF.scheduled_vs_naive", HTEquiv(gt, Ground0(r.tau, EmptyEnv), <<>>), "")>>
           \* MC_Sem: the reference translation (Translations.tla) against the reference semantics (MiniGringo.tla), and anthem against it
           ELSE LET gref == Ground(RefTau(r.rule), EmptyEnv)
+                   regular == RegularRule(r.rule)
+                   gnat == IF regular THEN Ground(RefNatural(r.rule), EmptyEnv) ELSE TT
                IN <<Out(r, "SELF.reference_translation_vs_reference_semantics", HTEquiv(gref, gr, <<>>), ""),
                     Out(r, "SELF.anthem_vs_reference_translation", HTEquiv(gt, gref, <<>>), "")>>
+                  \o (IF regular THEN <<Out(r, "SELF.reference_natural_vs_reference_semantics", HTEquiv(gnat, gr, <<>>), "")>> ELSE <<>>)
+                  \o (IF regular /\ hasNat THEN <<Out(r, "SELF.anthem_vs_reference_natural", HTEquiv(gn, gnat, <<>>), "")>> ELSE <<>>)
+                  \o <<Out(r, "SELF.natural_defined_iff_regular", IF regular = hasNat THEN OkT ELSE BadT([note |-> "anthem and the reference disagree on regularity"]), "")>>
      ELSE IF Prop = "C01" THEN <<Out(r, "C01.tau_vs_semantics", HTEquiv(gt, gr, <<>>), "")>> \o
           \* texts printed by the reference grammar (Syntax.tla) carry the tree they mean: the parser must have returned it
           (IF "exp" \in DOMAIN r
